@@ -472,6 +472,7 @@ def check_C05(ctx):
                 "non-trivial = non-square or more than one cell / more than one call")
     outs = [tlc(ctx, "mc/MC_Combine.cfg", "mc/MC_Combine.tla")["out"],
             tlc(ctx, "mc/MC_CombineWide.cfg", "mc/MC_Combine.tla")["out"],
+            tlc(ctx, "mc/MC_CombineBig.cfg", "mc/MC_Combine.tla", workers=2)["out"],     # random matrices up to 33x33 (beyond small-vector capacities)
             tlc(ctx, "mc/MC_Cache.cfg" if ctx.quick else "mc/MC_Cache3.cfg", "mc/MC_Cache.tla", workers=14, timeout=1800)["out"]]
     allout = concat(ctx, outs, "c05-lines.txt")
     s = hv(ctx, "replay-set", prop="C05", **{"in": allout})
